@@ -14,9 +14,10 @@
 
    This is the code after the repairs F-C07a (addBranch infers the type of a
    passthrough start node only while it is unknown), F-C07c (updateToValidateMap reads
-   the start node's type for every entry) and F-C07b (assertType accepts nil for
-   interface types).  The old behaviours are kept as switches ([ow] of [add_branch],
-   [stale] of [pass_groups], [assert_type_v0]) used only by the *_refuted witnesses. *)
+   the start node's type for every entry), F-C07b (assertType accepts nil for
+   interface types) and F-C07d (addBranch propagates the type it inferred at once).  The old
+   behaviours are kept as switches ([ow], [noprop] of [add_branch], [stale] of the
+   update loop, [assert_type_v0]) used only by the *_refuted witnesses. *)
 From Eino Require Import Base.Util Model.Types.
 
 Definition key := N.
@@ -340,9 +341,19 @@ Section Builder.
   Definition is_pass (st : gstate) (k : key) : bool :=
     match get_node st k with Some n => n_pass n | None => false end.
 
-  (* [ow = true] is the pre-repair behaviour F-C07a: the passthrough start node's type is
-     overwritten even when already known *)
-  Definition add_branch (ow stale : bool) (orc : nat -> nat -> list key) (st : gstate) (s : key) (t : ty)
+  (* AddBranch on a passthrough start node: the node takes the condition's type while its own
+     type is unknown, and (repair F-C07d) the new type is propagated along the pending
+     entries at once.
+     [ow = true] is the pre-repair behaviour F-C07a: the type is overwritten even when
+     already known; [noprop = true] the pre-repair behaviour F-C07d: no propagation here. *)
+  Definition branch_pre (ow stale noprop : bool) (orc : nat -> list key) (st : gstate) (s : key) (t : ty) : ures :=
+    if negb (N.eqb s kSTART) && is_pass st s &&
+       (ow || match out_ty st s with None => true | Some _ => false end)
+    then if noprop then UOk (set_pass_ty st s t)
+         else update_sel stale orc (set_pass_ty st s t)
+    else UOk st.
+
+  Definition add_branch (ow stale noprop : bool) (orc : nat -> nat -> list key) (st : gstate) (s : key) (t : ty)
              (ends choice : list key) : gstate * bool :=
     if g_err st then (st, false)
     else if g_compiled st then (st, false)
@@ -350,20 +361,20 @@ Section Builder.
     else if negb (has_node st s) && negb (N.eqb s kSTART) then (set_err st, false)
     else if Nat.eqb (List.length ends) 1 then (set_err st, false)
     else
-      let st1 :=
-        if negb (N.eqb s kSTART) && is_pass st s &&
-           (ow || match out_ty st s with None => true | Some _ => false end)
-        then set_pass_ty st s t else st in
-      match check_assignable u (out_ty st1 s) (Some t) with
-      | MustNot => (set_err st, false)
-      | r =>
-          let conv := match r with May => [t] | _ => [] end in
-          match branch_ends stale orc 0 st1 s (order_keys (orc 0%nat 0%nat) ends) with
-          | None => (set_err st, false)
-          | Some st2 =>
-              let b := {| b_ty := t; b_ends := ends; b_choice := choice; b_conv := conv |} in
-              (set_branches st2 (g_branches st2 ++ [(s, b)]), true)
+      match branch_pre ow stale noprop (fun n => orc 0%nat (S n)) st s t with
+      | UOk st1 =>
+          match check_assignable u (out_ty st1 s) (Some t) with
+          | MustNot => (set_err st, false)
+          | r =>
+              let conv := match r with May => [t] | _ => [] end in
+              match branch_ends stale orc 0 st1 s (order_keys (orc 0%nat 0%nat) ends) with
+              | None => (set_err st, false)
+              | Some st2 =>
+                  let b := {| b_ty := t; b_ends := ends; b_choice := choice; b_conv := conv |} in
+                  (set_branches st2 (g_branches st2 ++ [(s, b)]), true)
+              end
           end
+      | _ => (set_err st, false)
       end.
 
   Definition compile (st : gstate) : gstate * bool :=
@@ -387,28 +398,28 @@ Section Builder.
   | OpBranch (s : key) (t : ty) (ends choice : list key)      (* AddBranch(NewGraphMultiBranch) *)
   | OpCompile.
 
-  (* switches: (ow, stale); the current code is (false, false) *)
-  Definition step_sel (ow stale : bool) (orc : nat -> nat -> list key) (st : gstate) (o : op) : gstate * bool :=
+  (* switches: (ow, stale, noprop); the current code is (false, false, false) *)
+  Definition step_sel (ow stale noprop : bool) (orc : nat -> nat -> list key) (st : gstate) (o : op) : gstate * bool :=
     match o with
     | OpNode k i ot pre post => add_node st k false (Some i) (Some ot) pre post
     | OpPass k pre post => add_node st k true None None pre post
     | OpEdge s e => add_edge stale orc st s e
-    | OpBranch s t ends choice => add_branch ow stale orc st s t ends choice
+    | OpBranch s t ends choice => add_branch ow stale noprop orc st s t ends choice
     | OpCompile => compile st
     end.
-  Definition step := step_sel false false.
+  Definition step := step_sel false false false.
 
   (* a whole construction sequence; [orcs i] resolves the nondeterminism of call i *)
-  Fixpoint run_ops_sel (ow stale : bool) (orcs : nat -> nat -> nat -> list key) (i : nat) (st : gstate)
+  Fixpoint run_ops_sel (ow stale noprop : bool) (orcs : nat -> nat -> nat -> list key) (i : nat) (st : gstate)
            (ops : list op) : gstate * list bool :=
     match ops with
     | [] => (st, [])
     | o :: rest =>
-        let '(st1, ok) := step_sel ow stale (orcs i) st o in
-        let '(st2, oks) := run_ops_sel ow stale orcs (S i) st1 rest in
+        let '(st1, ok) := step_sel ow stale noprop (orcs i) st o in
+        let '(st2, oks) := run_ops_sel ow stale noprop orcs (S i) st1 rest in
         (st2, ok :: oks)
     end.
-  Definition run_ops := run_ops_sel false false.
+  Definition run_ops := run_ops_sel false false false.
 
   (* ================================================================== run time *)
 
